@@ -11,10 +11,10 @@ Variable D : bytes -> bytes.
 
 Notation HK := (Hk D).
 Notation vkey := (valid_key std_key_len std_key_ranges).
-Notation step := (tstep D fs_commit_skel std_key_len std_key_ranges).
-Notation sstep := (sys_step D fs_commit_skel std_key_len std_key_ranges).
+Notation step := (tstep D true fs_commit_skel std_key_len std_key_ranges).
+Notation sstep := (sys_step D true fs_commit_skel std_key_len std_key_ranges).
 Notation runs objs0 inputs sched :=
-  (run D fs_commit_skel std_key_len std_key_ranges (init_sys fs_create_skel objs0 inputs) sched).
+  (run D true fs_commit_skel std_key_len std_key_ranges (init_sys fs_create_skel objs0 inputs) sched).
 
 (** ** A budget that every step uses up *)
 
@@ -90,9 +90,9 @@ Proof.
 Qed.
 
 Lemma run_app s a b :
-  run D fs_commit_skel std_key_len std_key_ranges s (a ++ b) =
-  run D fs_commit_skel std_key_len std_key_ranges
-      (run D fs_commit_skel std_key_len std_key_ranges s a) b.
+  run D true fs_commit_skel std_key_len std_key_ranges s (a ++ b) =
+  run D true fs_commit_skel std_key_len std_key_ranges
+      (run D true fs_commit_skel std_key_len std_key_ranges s a) b.
 Proof. unfold run. apply fold_left_app. Qed.
 
 Theorem fs_can_always_finish : forall objs0 inputs sched,
